@@ -20,6 +20,7 @@ verus! {
 //@use error.rs
 //@use version.rs
 //@use offsets.rs
+//@use std_int.rs
 broadcast use shim_core::lemma_skip_skip;
 global size_of usize == 8;
 '''
